@@ -45,7 +45,36 @@ def phases(tier, seed):
                 n = sched.execute(jobs(pair), first, [], cold).count
                 for k1 in range(n):
                     cases.append({'pair': pair, 'first': first, 'k1': k1, 'bound': bound, 'cold': cold})
-    return [{'name': 'two-thread-schedules', 'cases': cases, 'runner': 'run_se', 'chunk': 4 if th else 6}]
+    return [{'name': 'shared-state-inventory', 'cases': [{}], 'runner': 'run_inventory', 'chunk': 1, 'serial': True, 'samples': 0},
+            {'name': 'two-thread-schedules', 'cases': cases, 'runner': 'run_se', 'chunk': 4 if th else 6}]
+
+
+KNOWN_SHARED = {'_SUBCLASSES', '_TOKEN_SETS', '_PROCESSED', '_FOUND'}
+
+
+def run_inventory(cases, stats):
+    """Which module-level / class-level containers of excel2pycl.* does a translation change?  (fresh interpreter.)
+    Everything found must be one of the tables the scheduler knows; anything else is reported as a NOTE (it is not by
+    itself a violation of the property, but the schedule enumeration has no scheduling points for it)."""
+    import json
+    import os
+    import subprocess
+    import sys
+    root = os.path.dirname(os.path.dirname(os.path.dirname(os.path.abspath(__file__))))
+    p = subprocess.run([sys.executable, '-W', 'ignore', '-m', 'mc.sched', 'inventory'], capture_output=True, text=True, cwd=root,
+                       timeout=300)
+    if p.returncode != 0:
+        raise RuntimeError('inventory subprocess failed: ' + p.stderr[-1500:])
+    inv = json.loads(p.stdout.strip().splitlines()[-1])
+    stats['transitions'] += 2
+    stats['validated'] += 1
+    allc = inv['changed_by_first_translation'] + inv['changed_by_second_translation']
+    unknown = sorted({x for x in allc if x.rsplit('.', 1)[1] not in KNOWN_SHARED})
+    stats['x:shared_state_attributes_changed_by_translation'] += len(set(allc))
+    stats['x:untracked_shared_state'] += len(unknown)
+    for x in unknown:
+        print(f'NOTE: property=C09 process-global state outside the scheduler\'s tables is changed by a translation: {x}')
+    return []
 
 
 def run_se(cases, stats):
